@@ -9,7 +9,7 @@ scratch=/tmp/trymut-repo-$$
 out=/tmp/trymut-out-$$
 rm -rf $scratch $out; cp -a /repo $scratch || exit 2
 (cd $scratch && git apply "$1") || { echo "patch does not apply"; rm -rf $scratch; exit 2; }
-mkdir -p $out/evidence $out/replays; cp /verif/known_findings.json $out/
+mkdir -p $out/evidence $out/replays; cp /verif/known_findings.json $out/; cp -r /verif/regress $out/
 cd /verif
 VERIF_OUT=$out VERIF_REPO=$scratch VERIF_RUN_TIMEOUT_S=900 ./check "$2" "${3:-quick}" 2>&1 | grep -v '^{' | grep "verifsim: runs\|VIOLATION\|HARNESS\|detail\|KNOWN" | cut -c1-500 | sed "s#$out/#/verif/#"
 h=$(echo -n $scratch | md5sum | cut -c1-8)
